@@ -84,6 +84,10 @@ type SeqCheck struct {
 	Rule    string
 	// NonTrivial decides from the executed history whether it counts.
 	NonTrivial func(h []stepInfo) bool
+	// FaultPct: percent of steps (from step 3 on) at which a command dies - torn append or
+	// leftover temp file - instead of running; 0 = never. The never-crashed twin is not
+	// used here: the next commands are judged by the property's own oracle.
+	FaultPct int
 	// GenOp overrides the op generator (may be nil).
 	GenOp func(rt *rapid.T, w *World, pre *Snapshot, prof Profile) Op
 	// AfterStep lets a property add its own oracle after a step (may be nil).
@@ -122,6 +126,7 @@ func preInfo(w *World, pre *Snapshot, op Op) (state, claim string, ok bool) {
 // runOps executes a fixed list of ops (replay) and returns the first own-property failure.
 func runOps(sc SeqCheck, ops []Op) (own []Violation, trace []string) {
 	w := NewWorld(sc.Prop + "-replay")
+	w.NoTwin = sc.Prop != "C03"
 	defer w.Close()
 	pre, err := TakeSnapshot(w.Root)
 	if err != nil {
@@ -180,6 +185,7 @@ func RunSeq(t *testing.T, sc SeqCheck) {
 			return
 		}
 		w := NewWorld(sc.Prop)
+		w.NoTwin = sc.Prop != "C03"
 		defer w.Close()
 		pre, err := TakeSnapshot(w.Root)
 		if err != nil {
@@ -199,7 +205,14 @@ func RunSeq(t *testing.T, sc SeqCheck) {
 		ended := ""
 		for i := 0; i < n; i++ {
 			var op Op
-			if sc.GenOp != nil {
+			if sc.FaultPct > 0 && w.StepNo >= 3 && StraceAvailable() == nil && pct(rt, sc.FaultPct, "seq.fault") {
+				inner := genOp(rt, w, pre, Profile{Name: "dying", Weights: map[string]int{"new_task": 30, "set": 40, "plan": 15, "compact": 15}})
+				kind := "tear"
+				if inner.Kind == "plan" || inner.Kind == "compact" {
+					kind = "tmp"
+				}
+				op = Op{Kind: "fault", Inner: &inner, FaultKind: kind, Frac: float64(uni(rt, 1000, "seq.fault.frac")) / 1000}
+			} else if sc.GenOp != nil {
 				op = sc.GenOp(rt, w, pre, sc.Profile)
 			} else {
 				op = genOp(rt, w, pre, sc.Profile)
